@@ -171,7 +171,7 @@ def run(out: Outcome) -> None:
             out.violation(f"MMD on {layout} arrays raised {type(e).__name__}: {e}", rep)
         out.case({"layout": layout, "n": n, "m": m, "dim": dim})
     # streaming
-    for _ in range(30 if thorough else 10):
+    for case_i in range(30 if thorough else 10):
         w, dim = rng.randint(2, 6), rng.choice([1, 2])
         cs = rng.choice([None, 1, 2, 3, w, w + 1])
         sigma = rng.choice([1.0, 0.7])
@@ -182,12 +182,12 @@ def run(out: Outcome) -> None:
         lines.append(f"x sn {w} {'-' if cs is None else cs} {f2h(sigma)}")
         expect.append(None)
         rejected = 0
-        if rng.random() < 0.5:      # the detector was used on another reference before: reset(), then fit again
+        if case_i % 2 == 0:      # the detector was used on another reference before: reset(), then fit again (every other case; half of those with a window that had FILLED before the reset)
             other = sample(rng, rng.randint(2, 6), dim, off)
             det.fit(X=other)
             lines.append(f"x sf {dim} " + " ".join(f2h(v) for v in other.reshape(-1)))
             expect.append(None)
-            for _ in range(rng.randint(1, 2 * w)):
+            for _ in range(rng.randint(w, 2 * w) if case_i % 4 == 0 else rng.randint(1, max(1, w - 1))):
                 v = sample(rng, 1, dim, off)[0]
                 det.update(value=v)
                 lines.append("x su " + " ".join(f2h(x) for x in v))
